@@ -13,6 +13,9 @@ M=""
 for f in $(cd $W && git status --porcelain | awk '{print $2}'); do M="$M,$f=$W/$f"; done
 M=${M#,}
 cd /verif
+# the run rewrites evidence/<ID>.json: keep the one of the unchanged tree
+EV=/verif/evidence/$ID.json; [ -f $EV ] && cp $EV $W.evidence.json
 VERIF_MUTATE="$M" ./run.sh $ID quick "$@" 2>&1 | grep -v "exhaustive=true\|^KNOWN-FINDING\|^NOTE \|^  (C09 suspicion" | awk "NR<=12"
 rc=${PIPESTATUS[0]}
+[ -f $W.evidence.json ] && mv $W.evidence.json $EV
 echo "exit=$rc"
